@@ -209,6 +209,7 @@ type mkRun struct {
 	maxDep  int
 	capN    uint64
 	tiny    int // tiny capacity actually used
+	touch   bool // every write is preceded by a Get of its key (bounded caches, every second run)
 }
 
 func (r *mkRun) rootType() node.RootType {
@@ -391,6 +392,12 @@ func (r *mkRun) checkReadsOn(t mkvs.KeyValueTree, op *mkOp) *mkFail {
 
 func (r *mkRun) apply(op *mkOp, rec *mkRecorder) *mkFail {
 	t := r.top()
+	if r.touch && (op.A == "ins" || op.A == "rem" || op.A == "remx") {
+		// read-before-write: the key's path is the most recently used part of the node cache when the write starts
+		if _, err := t.Get(r.ctx, op.K); err != nil {
+			return failf("error", "Get before %s: %v", op.A, err)
+		}
+	}
 	switch op.A {
 	case "ins":
 		v := []byte(op.V)
@@ -556,6 +563,7 @@ func liteOps(ops []mkOp) []string {
 
 func runBehaviour(b *mkBehaviour, cfg mkConfig, salt int, rec *mkRecorder) (res *mkMismatch, nops int) {
 	r := &mkRun{cfg: cfg, ctx: context.Background()}
+	r.touch = cfg.CapClass == "tight" && (salt/3)%2 == 0
 	maxDep := 1
 	for i := range b.Ops {
 		if b.Ops[i].Depth > maxDep {
